@@ -142,6 +142,7 @@ pub fn build(tier: Tier) -> Vec<Arc<ExchCfg>> {
                         arrive: vec![1],
                         allow_giveup: giveup,
                         stop_boundary: stop,
+                        arrive_to: vec![],
                     };
                     match ExchCfg::new("C01", r.cfg.clone(), r.body.clone(), srv.clone(), trailing.clone(), menu.clone()) {
                         Ok(mut c) => {
